@@ -653,6 +653,7 @@ func (x *Exec) rangeInit(st *State, fr *Frame, v *ssa.Range) Val {
 	}
 	_, ks, _ := x.mapInfo(m.T)
 	it := &IterState{Map: m, Visited: fmt.Sprintf("((as const (Array %s Bool)) false)", ks), Count: x.idxLit(0)}
+	it.Start = st.define(x, "rangestart", "(Array "+ks+" Bool)", sel(x.heapArrCur(st, m.T, ".has"), m.S))
 	st.iters[v] = it
 	return Val{T: v.Type(), K: KScalar, S: "0"}
 }
@@ -674,11 +675,20 @@ func (x *Exec) next(st *State, fr *Frame, v *ssa.Next) Val {
 	st.assume(implies(ok, and(has, not(sel(it.Visited, k)))))
 	// exhaustion: when !ok every present key was visited
 	qk := "qk!" + fmt.Sprint(x.nfresh)
-	st.assume(implies(not(ok), fmt.Sprintf("(forall ((%s %s)) (=> %s %s))", qk, ks, sel(sel(x.heapArrCur(st, m.T, ".has"), m.S), qk), sel(it.Visited, qk))))
+	// Go's guarantees for a map that is modified while it is ranged over: deleted keys are not produced; added keys may or
+	// may not be produced. So "exhausted => every present key was visited" holds if no key was added to THIS map since the
+	// range started, and the cardinality bookkeeping holds if its key set is unchanged. Both are stated conditionally.
+	hasNow := sel(x.heapArrCur(st, m.T, ".has"), m.S)
+	noAdd := fmt.Sprintf("(forall ((%s %s)) (=> (select %s %s) (select %s %s)))", qk, ks, hasNow, qk, it.Start, qk)
+	if hasNow == it.Start {
+		noAdd = "true"
+	}
+	st.assume(implies(and(noAdd, not(ok)), fmt.Sprintf("(forall ((%s %s)) (=> (select %s %s) %s))", qk, ks, hasNow, qk, sel(it.Visited, qk))))
+	same := eq(hasNow, it.Start)
 	mlen := x.mapLen(st, m)
-	st.assume(x.idxLe(it.Count, mlen))
-	st.assume(implies(ok, x.idxLt(it.Count, mlen)))
-	st.assume(implies(not(ok), eq(it.Count, mlen)))
+	st.assume(implies(same, x.idxLe(it.Count, mlen)))
+	st.assume(implies(and(same, ok), x.idxLt(it.Count, mlen)))
+	st.assume(implies(and(same, not(ok)), eq(it.Count, mlen)))
 	val := x.mapGet(st, m, k)
 	val = x.nameVal(st, val, "it.val")
 	x.assumeTyping(st, val)
@@ -698,4 +708,25 @@ func (x *Exec) heapArrCur(st *State, mapT types.Type, which string) string {
 		return c
 	}
 	panic("heapArrCur")
+}
+
+// loopAddsKeys: does the loop contain a map store (m[k] = v) on a map of the same type (directly in this function)?
+// Calls that may add keys show up as "all" or are covered by the conservative flag of the iterator at run time.
+func (x *Exec) loopAddsKeys(fn *ssa.Function, h *ssa.BasicBlock, t types.Type) bool {
+	li := x.loops(fn)
+	for b := range li.body[h] {
+		for _, in := range b.Instrs {
+			switch n := in.(type) {
+			case *ssa.MapUpdate:
+				if types.Identical(n.Map.Type().Underlying(), t.Underlying()) {
+					return true
+				}
+			case *ssa.Call:
+				if _, isB := n.Call.Value.(*ssa.Builtin); !isB {
+					return true
+				}
+			}
+		}
+	}
+	return false
 }
